@@ -174,6 +174,8 @@ class Scenario:
     real = "werkzeug code from the tree under test"
     stubs = "simulated environment"
     rule = ""
+    #: evidence level of the property this scenario serves
+    level = "exploration"
 
     def generate(self, rng: random.Random, tier: str) -> dict:
         raise NotImplementedError
